@@ -126,6 +126,11 @@ var c01gens = map[string]func(t *rapid.T) c01case{
 					if g.Fields[i].Type != tr.Fields[i].Type || !bytes.Equal(g.Fields[i].Data, tr.Fields[i].Data) {
 						return eqErr(fmt.Sprintf("Transaction.Write field %d", i), hexs(g.Fields[i].Data), hexs(tr.Fields[i].Data))
 					}
+					// "the original object": a field that is present without data is not an absent field (Data == nil is what
+					// GetField returns for a field that was not sent, and what every handler tests)
+					if (g.Fields[i].Data == nil) != (tr.Fields[i].Data == nil) {
+						return fmt.Errorf("Transaction.Write field %d (%d bytes of data): decoded Data == nil is %v, in the original object %v", i, len(tr.Fields[i].Data), g.Fields[i].Data == nil, tr.Fields[i].Data == nil)
+					}
 				}
 				adv, tok, err := hotline.VerifTransactionScanner(append(append([]byte{}, enc...), 9, 9, 9), false)
 				if err != nil || adv != len(enc) || !bytes.Equal(tok, enc) {
